@@ -16,4 +16,21 @@ int rfc1035NameUnpack(const char *buf, size_t sz, unsigned int *off, unsigned sh
 #else
 #define CV_REAL_RRDESTROY rfc1035RRDestroy
 #endif
+#ifdef M_QUERYUNPACK
+#define CV_REAL_QUERYUNPACK rfc1035QueryUnpack_real
+#else
+#define CV_REAL_QUERYUNPACK rfc1035QueryUnpack
+#endif
+#ifdef M_RRUNPACK
+#define CV_REAL_RRUNPACK rfc1035RRUnpack_real
+#else
+#define CV_REAL_RRUNPACK rfc1035RRUnpack
+#endif
+#if defined(M_QUERYUNPACK) || defined(M_RRUNPACK)
+#include <sys/types.h>
+#include <netinet/in.h>
+#include "dns/rfc1035.h"
+int rfc1035QueryUnpack(const char *buf, size_t sz, unsigned int *off, rfc1035_query *query);
+int rfc1035RRUnpack(const char *buf, size_t sz, unsigned int *off, rfc1035_rr *RR);
+#endif
 #endif
